@@ -278,8 +278,9 @@ def instances(tier):
     out = [I("reach:seq3", "make_seq", (3, True), "reachability twin", budget_s=60, validate_every=0),
            I("step", "make_step", (), "one inductive step from every pre-state (2 groups)", budget_s=100, validate_every=5),
            I("seq-3", "make_seq", (3,), "every sequence of 3 events over 2 groups", budget_s=200, validate_every=50),
-           I("seq-4", "make_seq", (4,), "every sequence of 4 events over 2 groups", budget_s=300, validate_every=200)]
+           I("seq-4", "make_seq", (4,), "every sequence of 4 events over 2 groups", budget_s=300, validate_every=200),
+           I("seq-5", "make_seq", (5,), "every sequence of 5 events over 2 groups", budget_s=300, validate_every=1000)]
     if tier != "quick":
-        out += [I("seq-5", "make_seq", (5,), "5 events", budget_s=600, validate_every=1000),
-                I("seq-6", "make_seq", (6,), "6 events (budgeted)", budget_s=900, validate_every=5000, exhaustive=False)]
+        out += [I("seq-6", "make_seq", (6,), "6 events", budget_s=900, validate_every=5000),
+                I("seq-7", "make_seq", (7,), "7 events (budgeted)", budget_s=900, validate_every=20000, exhaustive=False)]
     return out
